@@ -7,14 +7,15 @@ use crate::common::*;
 use crate::db::states::*;
 use crate::primitives::{AccountInfo, HashMap, U256};
 
-fn check_update(p1: Pat, p2: Pat) {
+fn check_update(ex0: bool, ex1: bool, ex2: bool, p1: Pat, p2: Pat) {
     // t1: s0 -e1-> s1
-    let s0 = any_status();
+    let s0 = any_status_ex(ex0);
     let e1 = any_ev();
     kani::assume(legal_c(s0, e1));
     let s1 = step(s0, e1);
-    let info0 = info_for(s0);
-    let info1 = info_for(s1);
+    kani::assume(exists(s1) == ex1);
+    let info0 = info_if(ex0);
+    let info1 = info_if(ex1);
     let flag1: bool = kani::any();
     // the wipe flag of a (merged) transition: set by a wiping event, possible only if the status says destroyed
     kani::assume(!ev_wipes(s0, e1) || flag1);
@@ -24,7 +25,8 @@ fn check_update(p1: Pat, p2: Pat) {
     let e2 = any_ev();
     kani::assume(legal_c(s1, e2));
     let s2 = step(s1, e2);
-    let info2 = info_for(s2);
+    kani::assume(exists(s2) == ex2);
+    let info2 = info_if(ex2);
     let flag2 = ev_wipes(s1, e2);
     // a wiping event carries no storage (selfdestruct / touch_empty_eip161: unit acctstate)
     kani::assume(!flag2 || (!p2[0] && !p2[1]));
@@ -55,22 +57,25 @@ fn check_update(p1: Pat, p2: Pat) {
         i += 1;
     }
     assert!(slots_are(&t1.storage, &want, or(p1, p2)));
-    kani::cover!(st_eq(s0, Loaded) && st_eq(s1, Destroyed) && st_eq(s2, DestroyedChanged));
+    kani::cover!(destroyed(s2));
 }
 
 macro_rules! harness {
-    ($name:ident, $unwind:expr, $a:expr, $b:expr) => {
+    ($name:ident, $unwind:expr, $e0:expr, $e1:expr, $e2:expr, $a:expr, $b:expr) => {
         #[kani::proof]
         #[kani::unwind($unwind)]
         #[kani::stub(std::hash::RandomState::new, fixed_random_state)]
         fn $name() {
-            check_update($a, $b)
+            check_update($e0, $e1, $e2, $a, $b)
         }
     };
 }
-// instance names: update_<keys written by t1>_<keys written by t2>
-harness!(update_00_00, 6, P00, P00);
-harness!(update_10_10, 6, P10, P10);
-harness!(update_10_00, 6, P10, P00);
-harness!(update_00_10, 6, P00, P10);
-harness!(update_11_11, 6, P11, P11);
+// instance names: update_<s|n x3: the account exists before t1 / after t1 / after t2>_<keys written by t1>_<keys written by t2>
+harness!(update_sss_00_00, 34, true, true, true, P00, P00);
+harness!(update_ssn_00_00, 34, true, true, false, P00, P00);
+harness!(update_sns_00_00, 34, true, false, true, P00, P00);
+harness!(update_snn_00_00, 34, true, false, false, P00, P00);
+harness!(update_nss_00_00, 34, false, true, true, P00, P00);
+harness!(update_nsn_00_00, 34, false, true, false, P00, P00);
+harness!(update_nns_00_00, 34, false, false, true, P00, P00);
+harness!(update_nnn_00_00, 34, false, false, false, P00, P00);
